@@ -4,6 +4,7 @@ import (
 	"errors"
 	"fmt"
 	"io"
+	"math"
 	"testing"
 
 	"github.com/yaricom/goNEAT/v4/neat/network"
@@ -29,7 +30,8 @@ func GenC14() *rapid.Generator[C14Case] {
 		}
 		n := rapid.IntRange(0, 4).Draw(t, "queries")
 		for i := 0; i < n; i++ {
-			c.Caps = append(c.Caps, rapid.IntRange(-1, 8).Draw(t, "cap"))
+			c.Caps = append(c.Caps, rapid.OneOf(rapid.IntRange(-1, 8), rapid.IntRange(-1, 8), rapid.IntRange(-1, 8),
+				rapid.SampledFrom([]int{math.MaxInt, math.MaxInt - 1, math.MaxInt32, math.MaxInt32 + 1, 1000, 65536})).Draw(t, "cap"))
 		}
 		return c
 	})
@@ -83,6 +85,12 @@ func CheckC14(c C14Case, rec *Rec) error {
 				return fmt.Errorf("cap %d on a fresh network with depth %d returns (%d, %v), expected (%d, depth exceeded)", cap, D, got, err, cap)
 			}
 			rec.Class("cap below the depth")
+		}
+	}
+	for _, cap := range []int{math.MaxInt, math.MaxInt32} {
+		n2, _ := build()
+		if got, err := n2.MaxActivationDepthWithCap(cap); err != nil || got != D {
+			return fmt.Errorf("cap %d on a fresh network with depth %d returns (%d, %v)", cap, D, got, err)
 		}
 	}
 	// idempotence: any sequence of queries on one instance, then the uncapped answer again
